@@ -229,6 +229,7 @@ func runGoSemStream(c *Ctx, n int) {
 	runGoSemTreeStream(c, n/10+1) // the tree of lib/common/multimap (gosem_tree.go)
 	runGoSemSynStream(c, n/2+1)   // the primitives of the syntax printer (gosem_syn.go)
 	runGoSemFmtStream(c, n/2+1)   // io.Writer, fmt's padding, strings.Join, Time.Format (gosem_fmt.go)
+	runGoSemBeanStream(c, n/4+1)  // strings.HasPrefix, the regexp [^a-zA-Z], compare.Sort's guarantee, printer.New(w) and w as one sink (gosem_bean.go)
 }
 
 func gosemB2i(b bool) int {
